@@ -422,6 +422,161 @@ def _instance_attr(m, q, name):
     return False
 
 
+def redispatch_targets(handler):
+    """If a handler forwards the *same* node to another formatter's print (`self.parent.print(*args, **kwargs)`,
+    `self.parent.print(printer, node)`), return the list of parent-chain depths it forwards to."""
+    out = []
+    params = func_params(handler.node)
+    passthrough = set(params[1:])
+    if handler.node.args.vararg:
+        passthrough.add("*" + handler.node.args.vararg.arg)
+    for c in walk_no_nested(handler.node):
+        if not (isinstance(c, ast.Call) and isinstance(c.func, ast.Attribute) and c.func.attr == "print"):
+            continue
+        depth, v = 0, c.func.value
+        while isinstance(v, ast.Attribute) and v.attr == "parent":
+            depth += 1
+            v = v.value
+        if not (isinstance(v, ast.Name) and v.id == "self") or depth == 0:
+            continue
+        args = []
+        for a in c.args:
+            args.append("*" + a.value.id if isinstance(a, ast.Starred) and isinstance(a.value, ast.Name) else
+                        (a.id if isinstance(a, ast.Name) else None))
+        # the node is forwarded unchanged if every argument is a parameter of the handler (or *args)
+        if args and all(a is not None and a in passthrough for a in args):
+            # must be unconditional-ish: not under an isinstance narrowing of the node
+            out.append(depth)
+    return out
+
+
+def e5_cycles(ctx, roots, node_classes):
+    m = ctx.model
+    ctx.rule("E5c", "no dispatch cycle: when the handler the protocol selects for a class merely forwards the same node "
+                    "to a parent formatter, the parent's lookup for that class must not select the same handler again "
+                    "(otherwise rendering recurses until RecursionError)")
+    n = 0
+    reported = set()
+    for rq, root in sorted(roots.items()):
+        for inst in root.walk():
+            for nq in node_classes:
+                for edited in (False, True):
+                    names = m.node_mro_names(nq, edited)
+                    seen = []
+                    cur = inst
+                    while True:
+                        r = m.get_formatter(names, cur)
+                        if r is None:
+                            break
+                        owner, hname = r
+                        h = m.method(owner.q, hname)
+                        key = (owner.path(), hname)
+                        if key in seen:
+                            rk = (h.qual, nq.rsplit(".", 1)[-1])
+                            if rk not in reported:
+                                reported.add(rk)
+                                ctx.violation("E5c", h.file, h.short, h.node, f"cycle {h.short} x {nq.rsplit('.', 1)[-1]}",
+                                              f"under {rq.rsplit('.', 1)[-1]} the protocol selects {h.short} for "
+                                              f"{'Edited' if edited else ''}{nq.rsplit('.', 1)[-1]}; that handler only forwards the node to "
+                                              f"its parent formatter, whose lookup selects {h.short} again: infinite "
+                                              f"recursion (RecursionError) whenever such a node is rendered",
+                                              path=[f"{a} -> {b}" for a, b in seen + [key]])
+                            break
+                        seen.append(key)
+                        if h is None:
+                            break
+                        depths = redispatch_targets(h)
+                        if not depths:
+                            break
+                        nxt = owner
+                        for _ in range(depths[0]):
+                            nxt = nxt.parent if nxt is not None else None
+                        if nxt is None:
+                            break
+                        n += 1
+                        cur = nxt
+    ctx.floor("E5c", n, 10, "forwarding steps followed")
+    if not reported:
+        ctx.proved("E5c", "graphtage/formatter.py", "_get_formatter", None, "no dispatch cycles",
+                   f"{n} forwarding steps followed over all (formatter position, class) cells; none returns to its origin")
+
+
+def h8_overrides(ctx):
+    m = ctx.model
+    ctx.rule("H8", "an override of a formatter/printer protocol method accepts every call its base accepts: at least "
+                   "the same positional parameters and every keyword name (or *args/**kwargs) - callers pass "
+                   "with_edits=, is_first=, is_last=, removed=, inserted= by keyword")
+    n = 0
+    bases = [FORMATTER, "graphtage.printer.Printer", "graphtage.printer.ANSIContext"]
+    for b in bases:
+        if b not in m.classes:
+            continue
+        for q in sorted(m.subclasses(b, strict=True)):
+            for name, (kind, v) in sorted(m.attrs[q].items()):
+                if kind != "def" or name.startswith("__"):
+                    continue
+                base_def = None
+                for k in m.c3(q)[1:]:
+                    if name in m.attrs[k] and m.attrs[k][name][0] == "def":
+                        base_def = m.attrs[k][name][1]
+                        break
+                if base_def is None or base_def is v:
+                    continue
+                if name.startswith("print_"):
+                    continue    # handlers are selected per class, not substituted for one another
+                n += 1
+                a, ba = v.node.args, base_def.node.args
+                if a.vararg and a.kwarg:
+                    ctx.proved("H8", v.file, v.short, v.node, f"{v.short} signature", "accepts *args, **kwargs", nontrivial=False)
+                    continue
+                names = [x.arg for x in a.posonlyargs + a.args + a.kwonlyargs]
+                bnames = [x.arg for x in ba.posonlyargs + ba.args + ba.kwonlyargs]
+                missing = [x for x in bnames if x not in names] if not a.kwarg else []
+                fewer_pos = (len(a.args) < len(ba.args)) and not a.vararg
+                # renamed positional parameters are fine positionally; only keyword-called ones matter
+                kw_called = {"with_edits", "is_first", "is_last", "removed", "inserted", "printer", "node_or_edit", "for_child"}
+                missing_kw = [x for x in missing if x in kw_called]
+                if fewer_pos or missing_kw:
+                    ctx.violation("H8", v.file, v.short, v.node, f"{v.short} signature",
+                                  f"{v.short}({', '.join(names[1:])}) overrides {base_def.short}({', '.join(bnames[1:])}) but "
+                                  f"accepts {'fewer positional arguments' if fewer_pos else ''}"
+                                  f"{' and ' if fewer_pos and missing_kw else ''}{'no ' + str(missing_kw) + ' keyword' if missing_kw else ''}: "
+                                  f"callers that pass these (e.g. formatter.print(..., with_edits=False) from Match/Insert/"
+                                  f"Remove.print) raise TypeError when this formatter is selected")
+                else:
+                    ctx.proved("H8", v.file, v.short, v.node, f"{v.short} signature", f"compatible with {base_def.short}")
+    ctx.floor("H8", n, 15, "overrides of protocol methods")
+
+
+def h9_palettes(ctx):
+    m = ctx.model
+    ctx.rule("H9", "colour-family agreement: a function whose parameter is annotated AnsiFore/AnsiBack/AnsiStyle looks the "
+                   "value up in the matching colorama palette (Fore/Back/Style) only")
+    fam = {"AnsiFore": "Fore", "AnsiBack": "Back", "AnsiStyle": "Style"}
+    n = 0
+    for f in sorted(m.functions.values(), key=lambda f: f.qual):
+        if f.module != "graphtage.printer" or ".<locals>." in f.qual:
+            continue
+        anns = {a.arg: dotted(a.annotation) for a in f.node.args.args if a.annotation is not None and dotted(a.annotation) in fam}
+        if len(set(anns.values())) != 1:
+            continue
+        want = fam[next(iter(anns.values()))]
+        used = {x.id for x in walk_no_nested(f.node) if isinstance(x, ast.Name) and x.id in fam.values() and isinstance(x.ctx, ast.Load)}
+        if not used:
+            continue
+        n += 1
+        wrong = sorted(used - {want})
+        if wrong:
+            node = next(x for x in walk_no_nested(f.node) if isinstance(x, ast.Name) and x.id in wrong)
+            ctx.violation("H9", f.file, f.short, node, f"{f.short} palette",
+                          f"{f.short} receives an {next(iter(anns.values()))} but looks it up in `{wrong[0]}`: no constant of "
+                          f"that palette equals a {want} code, so the lookup fails (ValueError: unknown colour) as soon "
+                          f"as such a colour is used")
+        else:
+            ctx.proved("H9", f.file, f.short, f.node, f"{f.short} palette", f"uses {want} only")
+    ctx.floor("H9", n, 2, "palette lookups")
+
+
 def h6_copy(ctx, reach):
     m = ctx.model
     ctx.rule("H6", "copy() is reachable while printing (formatter fallbacks copy children); every concrete node class "
@@ -470,6 +625,9 @@ def run(ctx):
     ctx.extra["dead_fallback_calls"] = len(dead)
     h1_reparenting(ctx, reach)
     handler_hazards(ctx, reach, roots)
+    e5_cycles(ctx, roots, node_classes)
+    h8_overrides(ctx)
+    h9_palettes(ctx)
     ctx.assume("value-dependent failures inside third-party encoders (yaml.dump, plistlib.dumps, json.dumps on exotic "
                "objects) are not decided")
     ctx.assume("the engine's model of the formatting protocol (_get_formatter port) - validated against the runtime in "
